@@ -115,7 +115,7 @@ const vUnset = "\x00unset"
 func (v *vcase) finish() {
 	v.Kind = vkindName[v.kind]
 	v.Role = map[bool]string{true: "argument", false: "option"}[v.asArg]
-	v.Decl = []string{"struct", "ptr", "short"}[v.declIdx]
+	v.Decl = []string{"struct", "ptr", "short", "short-ptr"}[v.declIdx]
 	v.Default = nil
 	for _, d := range v.def {
 		v.Default = append(v.Default, fmt.Sprint(d))
@@ -267,7 +267,7 @@ func (v *vcase) run() (o vobs) {
 	}
 	var get func() []interface{}
 	sbu := new(bool)
-	o.hasSBU = v.declIdx != 2
+	o.hasSBU = v.declIdx < 2
 	list := func(n int, at func(i int) interface{}) []interface{} {
 		var r []interface{}
 		for i := 0; i < n; i++ {
@@ -285,12 +285,16 @@ func (v *vcase) run() (o vobs) {
 			p = app.Bool(cli.BoolArg{Name: name, Value: d, EnvVar: env, SetByUser: sbu, HideValue: v.Hide})
 		case v.asArg && v.declIdx == 1:
 			app.BoolPtr(p, cli.BoolArg{Name: name, Value: d, EnvVar: env, SetByUser: sbu, HideValue: v.Hide})
+		case v.asArg && v.declIdx == 3:
+			app.BoolArgPtr(p, name, d, "")
 		case v.asArg:
 			p = app.BoolArg(name, d, "")
 		case v.declIdx == 0:
 			p = app.Bool(cli.BoolOpt{Name: name, Value: d, EnvVar: env, SetByUser: sbu, HideValue: v.Hide})
 		case v.declIdx == 1:
 			app.BoolPtr(p, cli.BoolOpt{Name: name, Value: d, EnvVar: env, SetByUser: sbu, HideValue: v.Hide})
+		case v.declIdx == 3:
+			app.BoolOptPtr(p, name, d, "")
 		default:
 			p = app.BoolOpt(name, d, "")
 		}
@@ -304,12 +308,16 @@ func (v *vcase) run() (o vobs) {
 			p = app.String(cli.StringArg{Name: name, Value: d, EnvVar: env, SetByUser: sbu, HideValue: v.Hide})
 		case v.asArg && v.declIdx == 1:
 			app.StringPtr(p, cli.StringArg{Name: name, Value: d, EnvVar: env, SetByUser: sbu, HideValue: v.Hide})
+		case v.asArg && v.declIdx == 3:
+			app.StringArgPtr(p, name, d, "")
 		case v.asArg:
 			p = app.StringArg(name, d, "")
 		case v.declIdx == 0:
 			p = app.String(cli.StringOpt{Name: name, Value: d, EnvVar: env, SetByUser: sbu, HideValue: v.Hide})
 		case v.declIdx == 1:
 			app.StringPtr(p, cli.StringOpt{Name: name, Value: d, EnvVar: env, SetByUser: sbu, HideValue: v.Hide})
+		case v.declIdx == 3:
+			app.StringOptPtr(p, name, d, "")
 		default:
 			p = app.StringOpt(name, d, "")
 		}
@@ -323,12 +331,16 @@ func (v *vcase) run() (o vobs) {
 			p = app.Int(cli.IntArg{Name: name, Value: d, EnvVar: env, SetByUser: sbu, HideValue: v.Hide})
 		case v.asArg && v.declIdx == 1:
 			app.IntPtr(p, cli.IntArg{Name: name, Value: d, EnvVar: env, SetByUser: sbu, HideValue: v.Hide})
+		case v.asArg && v.declIdx == 3:
+			app.IntArgPtr(p, name, d, "")
 		case v.asArg:
 			p = app.IntArg(name, d, "")
 		case v.declIdx == 0:
 			p = app.Int(cli.IntOpt{Name: name, Value: d, EnvVar: env, SetByUser: sbu, HideValue: v.Hide})
 		case v.declIdx == 1:
 			app.IntPtr(p, cli.IntOpt{Name: name, Value: d, EnvVar: env, SetByUser: sbu, HideValue: v.Hide})
+		case v.declIdx == 3:
+			app.IntOptPtr(p, name, d, "")
 		default:
 			p = app.IntOpt(name, d, "")
 		}
@@ -342,12 +354,16 @@ func (v *vcase) run() (o vobs) {
 			p = app.Float64(cli.Float64Arg{Name: name, Value: d, EnvVar: env, SetByUser: sbu, HideValue: v.Hide})
 		case v.asArg && v.declIdx == 1:
 			app.Float64Ptr(p, cli.Float64Arg{Name: name, Value: d, EnvVar: env, SetByUser: sbu, HideValue: v.Hide})
+		case v.asArg && v.declIdx == 3:
+			app.Float64ArgPtr(p, name, d, "")
 		case v.asArg:
 			p = app.Float64Arg(name, d, "")
 		case v.declIdx == 0:
 			p = app.Float64(cli.Float64Opt{Name: name, Value: d, EnvVar: env, SetByUser: sbu, HideValue: v.Hide})
 		case v.declIdx == 1:
 			app.Float64Ptr(p, cli.Float64Opt{Name: name, Value: d, EnvVar: env, SetByUser: sbu, HideValue: v.Hide})
+		case v.declIdx == 3:
+			app.Float64OptPtr(p, name, d, "")
 		default:
 			p = app.Float64Opt(name, d, "")
 		}
@@ -366,12 +382,16 @@ func (v *vcase) run() (o vobs) {
 			p = app.Strings(cli.StringsArg{Name: name, Value: d, EnvVar: env, SetByUser: sbu, HideValue: v.Hide})
 		case v.asArg && v.declIdx == 1:
 			app.StringsPtr(p, cli.StringsArg{Name: name, Value: d, EnvVar: env, SetByUser: sbu, HideValue: v.Hide})
+		case v.asArg && v.declIdx == 3:
+			app.StringsArgPtr(p, name, d, "")
 		case v.asArg:
 			p = app.StringsArg(name, d, "")
 		case v.declIdx == 0:
 			p = app.Strings(cli.StringsOpt{Name: name, Value: d, EnvVar: env, SetByUser: sbu, HideValue: v.Hide})
 		case v.declIdx == 1:
 			app.StringsPtr(p, cli.StringsOpt{Name: name, Value: d, EnvVar: env, SetByUser: sbu, HideValue: v.Hide})
+		case v.declIdx == 3:
+			app.StringsOptPtr(p, name, d, "")
 		default:
 			p = app.StringsOpt(name, d, "")
 		}
@@ -390,12 +410,16 @@ func (v *vcase) run() (o vobs) {
 			p = app.Ints(cli.IntsArg{Name: name, Value: d, EnvVar: env, SetByUser: sbu, HideValue: v.Hide})
 		case v.asArg && v.declIdx == 1:
 			app.IntsPtr(p, cli.IntsArg{Name: name, Value: d, EnvVar: env, SetByUser: sbu, HideValue: v.Hide})
+		case v.asArg && v.declIdx == 3:
+			app.IntsArgPtr(p, name, d, "")
 		case v.asArg:
 			p = app.IntsArg(name, d, "")
 		case v.declIdx == 0:
 			p = app.Ints(cli.IntsOpt{Name: name, Value: d, EnvVar: env, SetByUser: sbu, HideValue: v.Hide})
 		case v.declIdx == 1:
 			app.IntsPtr(p, cli.IntsOpt{Name: name, Value: d, EnvVar: env, SetByUser: sbu, HideValue: v.Hide})
+		case v.declIdx == 3:
+			app.IntsOptPtr(p, name, d, "")
 		default:
 			p = app.IntsOpt(name, d, "")
 		}
@@ -414,12 +438,16 @@ func (v *vcase) run() (o vobs) {
 			p = app.Floats64(cli.Floats64Arg{Name: name, Value: d, EnvVar: env, SetByUser: sbu, HideValue: v.Hide})
 		case v.asArg && v.declIdx == 1:
 			app.Floats64Ptr(p, cli.Floats64Arg{Name: name, Value: d, EnvVar: env, SetByUser: sbu, HideValue: v.Hide})
+		case v.asArg && v.declIdx == 3:
+			app.Floats64ArgPtr(p, name, d, "")
 		case v.asArg:
 			p = app.Floats64Arg(name, d, "")
 		case v.declIdx == 0:
 			p = app.Floats64(cli.Floats64Opt{Name: name, Value: d, EnvVar: env, SetByUser: sbu, HideValue: v.Hide})
 		case v.declIdx == 1:
 			app.Floats64Ptr(p, cli.Floats64Opt{Name: name, Value: d, EnvVar: env, SetByUser: sbu, HideValue: v.Hide})
+		case v.declIdx == 3:
+			app.Floats64OptPtr(p, name, d, "")
 		default:
 			p = app.Floats64Opt(name, d, "")
 		}
@@ -536,8 +564,8 @@ func genValueCase(r *rand.Rand, wide bool) *vcase {
 		v.Cli = append(v.Cli, t)
 	}
 	v.formSalt = r.Intn(5)
-	v.declIdx = r.Intn(3)
-	if v.declIdx == 2 {
+	v.declIdx = r.Intn(4)
+	if v.declIdx >= 2 {
 		// the short declaration forms take no environment list
 		v.envName, v.envVal = nil, nil
 	}
@@ -659,7 +687,7 @@ func runValue(c *core.Ctx, wide bool, what string) {
 		v.def = nil // D5 is reported by C06 only
 		v.finish()
 	}
-	if what == "setbyuser" && v.declIdx == 2 {
+	if what == "setbyuser" && v.declIdx >= 2 {
 		v.declIdx = c.R.Intn(2)
 		v.finish()
 	}
